@@ -74,6 +74,33 @@ def raw_rsa(pub, exp_len: int) -> bytes:
     return pub[2].to_bytes(pub[1] // 8, "big") + pub[3].to_bytes(exp_len, "big")
 
 
+def ecdsa_verify(curve: "pk.Curve", pub, r: int, s: int, msg: bytes, alg: str) -> bool:
+    """ECDSA verification with one simultaneous double-and-add for u1*G + u2*Q (same answer as pk.ecdsa_verify, about
+    40 % cheaper; the two are compared in the calibration of C15)."""
+    n, p = curve.n, curve.p
+    if not (1 <= r < n and 1 <= s < n) or not curve.on_curve(*pub):
+        return False
+    h = hashlib.new(alg, msg).digest()
+    e = int.from_bytes(h, "big")
+    excess = 8 * len(h) - n.bit_length()
+    if excess > 0:
+        e >>= excess
+    w = pow(s, -1, n)
+    u1, u2 = e * w % n, r * w % n
+    g, q = (curve.gx, curve.gy, 1), (pub[0], pub[1], 1)
+    gq = curve._jadd(g, q)
+    acc = (0, 1, 0)
+    for i in range(max(u1.bit_length(), u2.bit_length()) - 1, -1, -1):
+        acc = curve._jdbl(acc)
+        sel = ((u1 >> i) & 1) | (((u2 >> i) & 1) << 1)
+        if sel:
+            acc = curve._jadd(acc, (None, g, q, gq)[sel])
+    if not acc[2]:
+        return False
+    zi = pow(acc[2], -1, p)
+    return (acc[0] * zi * zi % p) % n == r
+
+
 def verify(pub, sig: bytes, msg: bytes, pss: bool = False) -> bool:
     """Signature check with the reference arithmetic (hash by key type: SHA-256 for RSA, by curve for ECC)."""
     if pub[0] == "ec":
@@ -81,7 +108,7 @@ def verify(pub, sig: bytes, msg: bytes, pss: bool = False) -> bool:
         if len(sig) != 2 * c:
             return False
         r, s = int.from_bytes(sig[:c], "big"), int.from_bytes(sig[c:], "big")
-        return pk.ecdsa_verify(pk.CURVES[pub[1]], (pub[2], pub[3]), r, s, msg, HASH_BY_CURVE[pub[1]])
+        return ecdsa_verify(pk.CURVES[pub[1]], (pub[2], pub[3]), r, s, msg, HASH_BY_CURVE[pub[1]])
     if pss:
         return pk.rsa_pss_verify(pub[2], pub[3], sig, msg, "sha256", salt_len=32)
     return pk.rsa_pkcs1v15_verify(pub[2], pub[3], sig, msg, "sha256")
